@@ -283,6 +283,128 @@ fn other(rng: &mut Rng) -> DriverCfg {
     DriverCfg { da, sa: None, timeout: Some(1000), vendor: v.into(), product: p.into() }
 }
 
+const GLONAXD: &str = "/verif/.cache/target-repo/debug/glonaxd";
+
+/// the real glonaxd (built with glonax/verif) on two emulated buses with the shipped configuration:
+/// SIGTERM `offset_ms` after it is up, with `clients` connections open on its Unix socket
+fn e2e_scenario(out: &mut Out, n: usize, offset_ms: u64, clients: usize, inject: bool) {
+    use std::io::Write;
+    use std::os::unix::process::ExitStatusExt;
+    if !std::path::Path::new(GLONAXD).exists() {
+        out.note("glonaxd binary not built: end-to-end part skipped".to_string());
+        return;
+    }
+    let conf: crate::server_config::Config = match glonax::from_file("/repo/contrib/etc/glonax.conf") {
+        Ok(c) => c,
+        Err(_) => {
+            out.case("e2e shipped-config", "REJECTED", true);
+            return;
+        }
+    };
+    let dir = std::path::PathBuf::from(format!("/verif/.cache/e2e/{}-{}", std::process::id(), n));
+    let _ = std::fs::remove_dir_all(&dir);
+    std::fs::create_dir_all(dir.join("bus")).unwrap();
+    let text = std::fs::read_to_string("/repo/contrib/etc/glonax.conf").unwrap().replace("/tmp/glonax.sock", dir.join("glonax.sock").to_str().unwrap());
+    let cfile = dir.join("glonax.conf");
+    std::fs::File::create(&cfile).unwrap().write_all(text.as_bytes()).unwrap();
+    let cfgs: Vec<NetCfg> = conf
+        .j1939
+        .iter()
+        .map(|net| NetCfg {
+            address: net.address,
+            name: [net.name.manufacturer_code as u32, net.name.function_instance as u32, net.name.ecu_instance as u32, net.name.function as u32, net.name.vehicle_system as u32, net.name.vehicle_system_instance as u32, net.name.industry_group as u32],
+            drivers: net.driver.iter().map(|d| DriverCfg { da: d.da, sa: d.sa, timeout: d.timeout, vendor: d.vendor.clone(), product: d.product.clone() }).collect(),
+        })
+        .collect();
+    let buses: Vec<Bus> = conf.j1939.iter().map(|net| Bus::attach_at(&dir.join("bus"), &net.interface)).collect();
+    let mut child = std::process::Command::new(GLONAXD)
+        .arg("--config")
+        .arg(&cfile)
+        .arg("--quiet")
+        .env("GLONAX_VERIF_BUS", dir.join("bus"))
+        .env_remove("GLONAX_VERIF_BUS_LOOPBACK")
+        .stdout(std::process::Stdio::null())
+        .stderr(std::process::Stdio::null())
+        .spawn()
+        .expect("spawn glonaxd");
+    // up = every network has announced itself (address claim) and the socket is there
+    let t_up = Instant::now();
+    let mut claimed = vec![false; buses.len()];
+    while t_up.elapsed() < Duration::from_secs(5) && !(claimed.iter().all(|c| *c) && dir.join("glonax.sock").exists()) {
+        for (i, b) in buses.iter().enumerate() {
+            for r in b.sync() {
+                let id = u32::from_le_bytes([r[0], r[1], r[2], r[3]]) & 0x1FFF_FFFF;
+                if (id >> 8) & 0xFF00 == 0xEE00 {
+                    claimed[i] = true;
+                }
+            }
+        }
+        std::thread::sleep(Duration::from_millis(2));
+    }
+    let up = claimed.iter().all(|c| *c);
+    let mut conns = vec![];
+    for k in 0..clients {
+        if let Ok(mut c) = std::os::unix::net::UnixStream::connect(dir.join("glonax.sock")) {
+            if k % 2 == 0 {
+                // a registered session (frame type 0x10 = session, flags 0, name "e2e")
+                let mut f = vec![b'L', b'X', b'R', 0x03, 0x10, 0x00, 0x04, 0, 0, 0];
+                f.extend_from_slice(&[0x00, b'e', b'2', b'e']);
+                let _ = c.write_all(&f);
+            }
+            conns.push(c);
+        }
+    }
+    if inject {
+        // a burst of unit frames while the request arrives
+        for b in &buses {
+            for k in 0..20u8 {
+                b.inject(&Bus::raw(0x18FF4A4A | 0x8000_0000, 8, &[k, 0, 0, 0, 0, 0, 0, 0]));
+            }
+        }
+    }
+    std::thread::sleep(Duration::from_millis(offset_ms));
+    for b in &buses {
+        let _ = b.sync();
+    }
+    let t0 = Instant::now();
+    unsafe {
+        libc::kill(child.id() as i32, libc::SIGTERM);
+    }
+    let mut status = None;
+    while t0.elapsed() < Duration::from_secs(6) {
+        if let Ok(Some(s)) = child.try_wait() {
+            status = Some(s);
+            break;
+        }
+        std::thread::sleep(Duration::from_millis(1));
+    }
+    let ms = t0.elapsed().as_millis();
+    if status.is_none() {
+        let _ = child.kill();
+        let _ = child.wait();
+    }
+    let during: Vec<Vec<String>> = buses.iter().zip(cfgs.iter()).map(|(b, c)| b.sync().iter().map(|r| raw_to_frame_tok(r, c.address)).collect()).collect();
+    std::thread::sleep(Duration::from_millis(60));
+    let after_n: usize = buses.iter().map(|b| b.sync().len()).sum();
+    let exit = match status {
+        Some(s) if s.success() => "0".to_string(),
+        Some(s) => s.code().map(|c| c.to_string()).unwrap_or_else(|| format!("sig{}", s.signal().unwrap_or(0))),
+        None => "hung".to_string(),
+    };
+    drop(conns);
+    drop(buses);
+    let _ = std::fs::remove_dir_all(&dir);
+    let cfg_tok: Vec<String> = cfgs.iter().map(|c| c.tok()).collect();
+    let frames: Vec<String> = during.iter().map(|f| if f.is_empty() { "-".to_string() } else { f.join(",") }).collect();
+    out.case(
+        &format!("bus e2e{}c{} {} sigterm {}{}", if up { "" } else { "-notup" }, clients, cfg_tok.join("|"), offset_ms, if inject { " burst" } else { "" }),
+        &format!("j={} after={} fast={} {}", (exit == "0") as u8, after_n, (ms < 1000) as u8, frames.join(" ")),
+        true,
+    );
+    out.count(&format!("real glonaxd under SIGTERM: exit {}", exit));
+    out.count(&format!("shutdown wall time request->exit (glonaxd): {}", if ms <= 20 { "<=20 ms" } else if ms <= 100 { "<=100 ms" } else if ms <= 1000 { "<=1 s" } else { ">1 s" }));
+}
+
 pub fn run(out: &mut Out, tier: &str, rng: &mut Rng) {
     let thorough = tier == "thorough";
     out.rule = "real glonax::Runtime: the three io services of glonaxd's run() and 0..3 networks as recording stubs, the termination request delivered at EVERY scheduling point of every schedule call (hook verif_sched: enter / guard / spawn / spawn2 / spawn3 x call index), after scheduling (0..40 ms later, idle or in a 40-command burst) directly and through a real SIGTERM handled by register_shutdown_signal, on current-thread and multi-thread tokio runtimes; observed: setup / teardown calls per service, whether wait_for_tasks returns within 1.5 s, silence afterwards. Then the real NetworkAuthority (1-2 networks, 0-3 hydraulic units each plus other units) under the real Runtime on emulated buses: frames seen between the request and the join, frames after the join. Then authority-level teardown at any point of its life. Non-trivial = all".into();
@@ -338,4 +460,13 @@ pub fn run(out: &mut Out, tier: &str, rng: &mut Rng) {
     }
     // --- C: authority-level teardown
     crate::authgen::run_c16_auth(out, tier, rng);
+    // --- D: the real daemon
+    let offsets: &[u64] = if thorough { &[0, 1, 2, 3, 5, 8, 10, 12, 15, 20, 25, 30, 40, 60, 100, 250] } else { &[0, 7, 30] };
+    let mut n = 0;
+    for &o in offsets {
+        for clients in if thorough { vec![0usize, 1, 3] } else { vec![(o % 3) as usize] } {
+            e2e_scenario(out, n, o, clients, n % 2 == 1);
+            n += 1;
+        }
+    }
 }
